@@ -706,7 +706,7 @@ func engineB(c *core.Ctx) error {
 			}
 			records = append(records, canaryRecord())
 			canary := len(records) - 1
-			bad, err := c.JudgeRecords("JudgeCollector", "JudgeCollector.cfg", records, maxJudgeFail, core.Timeout(15*time.Minute))
+			bad, err := c.JudgeRecords("JudgeCollector", "JudgeCollector.cfg", records, maxJudgeFail, core.Timeout(scaled(15*time.Minute)))
 			mu.Lock()
 			defer mu.Unlock()
 			if err != nil {
